@@ -164,7 +164,11 @@ AGG = ('__len__', 'volume', 'stats', 'check', '_remove', '__iter__', '__reversed
 def s4(ctx):
     obs = []
     for name in AGG:
-        f = ctx.method('FanoutCache', name)
+        if name == '_remove':
+            from .rules_retry import _fanout_remove
+            f = _fanout_remove(ctx)
+        else:
+            f = ctx.method('FanoutCache', name)
         # syntactic: exactly one iteration construct over self._shards (or reversed(self._shards)), no slicing
         iters = []
         for n in ast.walk(f.node):
@@ -260,7 +264,8 @@ def s4(ctx):
                       'the result of %s does not depend on the per-shard %s of every shard (for __reversed__: shards '
                       'in reverse order, each reversed)' % (name, callee), f.loc()))
     # _remove: adds timeout.args[0] and retries the same shard
-    f = ctx.method('FanoutCache', '_remove')
+    from .rules_retry import _fanout_remove
+    f = _fanout_remove(ctx)
     ok = False
     okretry = False
     for p in ctx.paths(ctx.method('FanoutCache', 'clear'), 'default'):
